@@ -182,8 +182,6 @@ Proof.
 Qed.
 Print Assumptions C12_store_split_spelling_legacy_refuted.
 
-(* Facts about the four built-in definition files AS THEY ARE NOW (Gen/C12_tables.v is
-   regenerated from the TOML files on every run) *)
 Definition default_blocks (r : err + (list config * list string)) : list (list string) :=
   match r with
   | inr (gs, _) => flat_map (fun g => if String.eqb (g_pass g) "default" then map m_defs (g_blocks g) else []) gs
@@ -191,6 +189,27 @@ Definition default_blocks (r : err + (list config * list string)) : list (list s
   end.
 Definition pass_defs (r : err + (list config * list string)) : list (string * list string) :=
   match r with inr (gs, _) => map (fun g => (g_pass g, g_defs g)) gs | inl _ => [] end.
+(* Known finding redefined-flag-crashes: the documentation's own example definition of gcc
+   (docs/source/emulating-compiler-behavior.rst), placed in .cbi/config, repeats the built-in
+   flag -fopenmp; S gives the later definition to the flag, the code raises ArgumentError
+   for every gcc / g++ command *)
+Definition doc_example_user : list (string * udef) :=
+  [("gcc", UComp None
+      (Some [{| r_flags := ["-fopenmp"]; r_act := AAppendConst "openmp"; r_dest := DModes; r_default := None |}])
+      (Some [{| m_name := "openmp"; m_defs := ["_OPENMP"]; m_paths := []; m_files := [] |}]) None);
+   ("g++", UAlias "gcc")].
+Theorem C12_redefined_flag_refuted :
+  let t := merge_user builtin_table doc_example_user in
+  let c := compiler_of t (resolve t "g++") in
+  rules_conflict c = true /\
+  parse_args false c ["-fopenmp"; "-DX"] = inl EArgument /\
+  option_map (fun r => pass_defs (inr r)) (spec_parse_cmd c ["-fopenmp"; "-DX"]) = Some [("default", ["X"])] /\
+  option_map (fun r => default_blocks (inr r)) (spec_parse_cmd c ["-fopenmp"; "-DX"]) = Some [["_OPENMP"]].
+Proof. vm_compute. repeat split; reflexivity. Qed.
+Print Assumptions C12_redefined_flag_refuted.
+
+(* Facts about the four built-in definition files AS THEY ARE NOW (Gen/C12_tables.v is
+   regenerated from the TOML files on every run) *)
 Definition cmd (a0 : string) (argv : list string) := snd (snd (run_cmd false builtin_table a0 argv)).
 
 Theorem C12_builtins :
